@@ -197,13 +197,26 @@ def check_slab(part, c, uc, M, bounds, sk, case):
                   % (bounds, sk), case)
 
 
-def generic_sites(seed, D):
-    """three generic sites (denominator 997 -> over D=12*997), rotated by the seed"""
-    base = [(131 + 7 * seed) % 997, (467 + 13 * seed) % 997, (811 + 29 * seed) % 997]
+def generic_sites(seed, D, ops):
+    """
+    three generic sites (denominator 997 -> over D=12*997), rotated by the seed, chosen from a fixed candidate
+    sequence so that for THIS group no two images are closer than 0.03 (fractional): the library merges sites
+    closer than 0.01, and the property keeps sites away from that tolerance
+    """
+    from mc import xtal
+
     out = []
-    for i in range(3):
-        p = tuple(((base[(i + j) % 3] + 97 * i * (j + 1)) % 997) * 12 for j in range(3))
-        out.append(p)
+    k = 0
+    while len(out) < 3 and k < 4000:
+        a = (131 + 7 * seed + 211 * k) % 997
+        b = (467 + 13 * seed + 389 * k) % 997
+        c = (811 + 29 * seed + 97 * k) % 997
+        k += 1
+        cand = out + [(a * 12, b * 12, c * 12)]
+        if xtal.image_separation(ops, np.array(cand, dtype=float) / D) > 0.03:
+            out = cand
+    if len(out) < 3:
+        raise RuntimeError("no generic sites found")
     return out
 
 
@@ -234,7 +247,7 @@ def plan_for_setting(row, tier, seed):
                           "variant": variant})
     Dg = 12 * 997
     for ci, cell in enumerate(cells):
-        cases.append({"number": number, "choice": choice, "D": Dg, "sites": generic_sites(seed + ci, Dg), "cell": cell,
+        cases.append({"number": number, "choice": choice, "D": Dg, "sites": generic_sites(seed + ci, Dg, ops), "cell": cell,
                       "slab": SLABS[ci], "z0": 6, "variant": "generic"})
     return cases
 
